@@ -236,16 +236,22 @@ class DULServiceProvider(threading.Thread):
             if self.dimse_gen:
                 try:
                     self.primitive = next(self.dimse_gen)
-                    self.event.append(PDU_TO_EVENT[self.primitive.pdu_type])
-                    return True
                 except StopIteration:
                     self.dimse_gen = None
+                except Exception:  # pylint: disable=broad-except
+                    return self._abort_outgoing_message()
+                else:
+                    self.event.append(PDU_TO_EVENT[self.primitive.pdu_type])
+                    return True
             incoming = self.from_service_user.get(False, None)
             if hasattr(incoming, 'pdu_type'):
                 self.primitive = incoming
             else:
                 self.dimse_gen = incoming
-                self.primitive = next(self.dimse_gen)
+                try:
+                    self.primitive = next(self.dimse_gen)
+                except Exception:  # pylint: disable=broad-except
+                    return self._abort_outgoing_message()
             self.event.append(PDU_TO_EVENT[self.primitive.pdu_type])
             return True
         except KeyError:
@@ -254,6 +260,14 @@ class DULServiceProvider(threading.Thread):
             )
         except queue.Empty:
             return False
+
+    def _abort_outgoing_message(self):
+        # message can not be turned into P-DATA-TF PDUs (source failed, or
+        # nothing fits into maximum PDU length accepted by the peer): provider
+        # can not continue, association is aborted instead of killing the loop
+        self.dimse_gen = None
+        self.event.append(fsm.Events.EVT_19)
+        return True
 
     def _check_timer(self):
         if self.timer.check() is False:
